@@ -207,5 +207,10 @@ func TestC04(t *testing.T) {
 	R.Assume = []string{"ref.Eval (harness) encodes the documented semantics (DESIGN.md Appendix A); string()/print text is characterised from the pinned code", "TZ=UTC; absolute time forms only"}
 	reportKnown(t, "C04")
 	runRegress(t, "C04")
+	if Tier == "thorough" {
+		c04ops.Each(t, "boundary-pools-large", eachOpCase(true, 60000))
+	} else {
+		c04ops.Each(t, "boundary-pools-core", eachOpCase(false, 1500))
+	}
 	c04.Run(t, budget(6000, 400000))
 }
